@@ -1181,6 +1181,14 @@ fn konly_cases() -> Vec<Case> {
     c.cfg_words = vec!["--config-file".into(), "none".into()];
     c.cfg_content = Some("--config-file none\n".into());
     v.push(c);
+    // `--` on the command line also covers the words spliced in from the config file: they become file names
+    let mut c = plain_case(&["-c", "dd.cfg", "--syntax-highlighting", "none", "--", "a.md"], "-- before a file, config file carrying --smart: the config word is read as a file name (exit 3)");
+    c.cfg_path = "dd.cfg".into();
+    c.cfg_state = "words";
+    c.cfg_words = vec!["--smart".into()];
+    c.cfg_content = Some("--smart\n".into());
+    c.files = vec![(b"a.md".to_vec(), Some(b"*a*\n".to_vec()))];
+    v.push(c);
     let mut c = plain_case(&["-c", "ws.cfg", "--syntax-highlighting", "none", "--smart"], "config file with white space and a comment only");
     c.cfg_path = "ws.cfg".into();
     c.cfg_state = "words";
